@@ -33,3 +33,29 @@ func init() {
 		})
 	})
 }
+
+func init() {
+	extraIntrinsics = append(extraIntrinsics, func(w *World) {
+		// strconv.ParseFloat: exact for concrete text; for symbolic text an
+		// uninterpreted function of the bytes (value) and an uninterpreted
+		// predicate (ok), so equal texts parse equally and nothing else is known.
+		w.reg("strconv.ParseFloat", func(e *Exec, fn *ssa.Function, a []Value) Value {
+			s := e.plainStr(a[0].(*StrV))
+			bits := e.argInt(a[1], "ParseFloat bitSize")
+			errT := fn.Signature.Results().At(1).Type()
+			if cs, ok := e.concStr(s); ok {
+				f, err := strconvParseFloat(cs, bits)
+				if err != nil {
+					return TupleV{e.tb.FP(64, f), e.errorValue(err.Error())}
+				}
+				return TupleV{e.tb.FP(64, f), e.zero(errT)}
+			}
+			val := e.tb.UF(sanitize("parsefloat_val_len")+itoa(len(s.B)), SFP(64), s.B...)
+			ok := e.tb.UF(sanitize("parsefloat_ok_len")+itoa(len(s.B)), SBool, s.B...)
+			if e.branch(ok) {
+				return TupleV{val, e.zero(errT)}
+			}
+			return TupleV{e.tb.FP(64, 0), e.errorValue("strconv.ParseFloat: parsing <symbolic>: invalid syntax")}
+		})
+	})
+}
